@@ -48,7 +48,7 @@ def names_for(X, rng, tier):
     wl = fm.weighable()
     light = [s for s in wl if fm.ZOF[s] <= 92]
     Gall, Glight = fm.Gen(rng, wl, max_len=60), fm.Gen(rng, light, max_len=60)
-    out = ['H2O', 'Ca5(PO4)3F', 'SiO2', 'C6H12O6', 'Fe0.95O', '(H2O)0.5', 'Pb(Zr0.52Ti0.48)O3', 'K(AlSi3)O8', 'U3O8']
+    out = ['H2O', 'AgMd', 'Ca5(PO4)3F', 'SiO2', 'C6H12O6', 'Fe0.95O', '(H2O)0.5', 'Pb(Zr0.52Ti0.48)O3', 'K(AlSi3)O8', 'U3O8']
     out += wl                                                   # every weighable element on its own
     for s in wl:                                                # ... and inside a generated (nested / fractional) formula
         out.append(fm.render((Glight if fm.ZOF[s] <= 92 else Gall).formula(must_contain=s)))
@@ -114,9 +114,13 @@ def check_cp(ck, L, X, names, comps, st):
             bad = np.nonzero(~allok & cok[k])[0]
             for j in bad[:2]:
                 zf = [int(z) for z, i in zip(c['Z'], idx) if not eok[i, j]]
-                ck.violation('c06:%s:no-error:elemental-failure' % fn,
-                             '%s returned %r although %s fails for Z=%r' % (call(j), float(cv[k, j]), fn[:-3], zf),
-                             dict(call=call(j), elements=c['Z'].tolist(), failing=zf, config=L.config))
+                first_fail = min(n for n, i in enumerate(idx) if not eok[i, j])
+                # a legitimate exact 0.0 of an earlier element (e.g. the polarised Rayleigh factor at theta = pi/2, phi = 0) is a class of its own
+                cls = ':after-legitimate-zero-term' if any(eok[i, j] and ev[i, j] == 0.0 for i in idx[:first_fail]) else ''
+                ck.violation('c06:%s:no-error:elemental-failure%s' % (fn, cls),
+                             '%s returned %r without an error although %s fails for Z=%r%s' % (call(j), float(cv[k, j]), fn[:-3], zf,
+                                                                                           ' (an earlier element legitimately contributes exactly 0.0)' if cls else ''),
+                             dict(call=call(j), elements=c['Z'].tolist(), failing=zf, elemental=[float(ev[i, j]) for i in idx], config=L.config))
             # success expected
             bad = np.nonzero(allok & ~cok[k])[0]
             for j in bad[:2]:
@@ -125,8 +129,9 @@ def check_cp(ck, L, X, names, comps, st):
                              dict(call=call(j), elements=c['Z'].tolist(), expected=float(ref[j]), config=L.config))
             both = allok & cok[k]
             if both.any():
-                rel = np.abs(cv[k, both] - ref[both]) / np.abs(ref[both])
-                st['worst_cp'] = max(st['worst_cp'], float(rel.max()))
+                with np.errstate(divide='ignore', invalid='ignore'):
+                    rel = np.where(ref[both] == 0, np.where(cv[k, both] == 0, 0.0, np.inf), np.abs(cv[k, both] - ref[both]) / np.abs(ref[both]))
+                st['worst_cp'] = max(st['worst_cp'], float(rel[np.isfinite(rel)].max()) if np.isfinite(rel).any() else 0.0)
                 jj = np.nonzero(both)[0][rel > TOL]
                 for j in jj[:2]:
                     ck.violation('c06:%s:wrong-value:%s' % (fn, c['kind']),
